@@ -365,8 +365,9 @@ class Run:
         self.broken = []       # descriptions of broken obligations/correspondences
         self.assumptions = []
         self.distinct = set()
-        for old in glob.glob(os.path.join(REPLAYS, pid + '-*.case')):
-            os.remove(old)
+        if not os.environ.get('VERIF_REPLAYING'):
+            for old in glob.glob(os.path.join(REPLAYS, pid + '-*.case')):
+                os.remove(old)
 
     def add_proofs(self, res):
         self.cov['obligations'] += res['obligations']
